@@ -1265,7 +1265,17 @@ class Stack(list):
         #     if version < 2:
         #         return False
         # return True
-        return NotImplementedError
+        locktime = decode_num(self[-1])
+        if locktime < 0:
+            return False
+        if locktime & SEQUENCE_LOCKTIME_DISABLE_FLAG:
+            return True
+        if version < 2 or sequence & SEQUENCE_LOCKTIME_DISABLE_FLAG:
+            return False
+        mask = SEQUENCE_LOCKTIME_TYPE_FLAG | SEQUENCE_LOCKTIME_MASK
+        if (locktime & mask < SEQUENCE_LOCKTIME_TYPE_FLAG) != (sequence & mask < SEQUENCE_LOCKTIME_TYPE_FLAG):
+            return False
+        return locktime & mask <= sequence & mask
 
     def op_nop4(self):
         return True
